@@ -311,7 +311,46 @@ def run_traces(chk, mods, seed, count, flavours, label):
         chk.distinct.add(('trace', trc['id']))
 
 
+_MODS = None
+
+
+def _lazy_mods():
+    global _MODS  # pylint: disable=global-statement
+    if _MODS is None:
+        _MODS = _mods()
+    return _MODS
+
+
+def par_value_c17(case):
+    return replay_value_case(case, _lazy_mods(), 'C17')
+
+
+def par_value_c19(case):
+    return replay_value_case(case, _lazy_mods(), 'C19')
+
+
+def par_history(case):
+    return replay_history(case, _lazy_mods())
+
+
+def par_indent(case):
+    return replay_indent_case(case, _lazy_mods())
+
+
 def _replay_cases(chk, cases, fn, label, key):
+    """Replay in a process pool when fn is one of the module-level par_* functions, else sequentially."""
+    if getattr(fn, '__name__', '').startswith('par_') and len(cases) > 2000:
+        import multiprocessing  # pylint: disable=import-outside-toplevel
+        nbad = 0
+        with multiprocessing.Pool(min(core.NCPU, 16)) as pool:
+            for case, bad in zip(cases, pool.imap(fn, cases, chunksize=500)):
+                chk.count((label, key(case)))
+                if bad and nbad <= 20:
+                    nbad += 1
+                    clause, exp, got = bad[0]
+                    chk.violation(f'{label}: {clause}: model expects {str(exp)[:150]!r}, implementation gives {str(got)[:150]!r}',
+                                  {'kind': label, 'case': case, 'mismatches': [list(map(str, b)) for b in bad[:5]]})
+        return nbad
     nbad = 0
     for case in cases:
         chk.count((label, key(case)))
@@ -342,11 +381,11 @@ def check_c17(tier, seed):
         if not cases:
             raise core.MachineryError(f'{cfg}: TLC emitted no cases')
         chk.sample(cases[len(cases) // 2])
-        _replay_cases(chk, cases, lambda c: replay_value_case(c, mods, 'C17'), cfg, lambda c: core.json.dumps(c['v']))
+        _replay_cases(chk, cases, par_value_c17, cfg, lambda c: core.json.dumps(c['v']))
     res = chk.tlc('TextBlockMC', 'TextBlockMC.cfg' if tier == 'quick' else 'TextBlockMC4.cfg', coverage=True)
     hist = res.emitted()
     chk.sample(hist[len(hist) // 2])
-    _replay_cases(chk, hist, lambda c: replay_history(c, mods), 'history', lambda c: core.json.dumps(c['hist']))
+    _replay_cases(chk, hist, par_history, 'history', lambda c: core.json.dumps(c['hist']))
     chk.traces += len(hist)
     run_traces(chk, mods, seed, 1500 if tier == 'quick' else 20000, ['block', 'functions'], f's{seed}')
     chk.exhaustive = True
@@ -371,11 +410,11 @@ def check_c18(tier, seed):
         if not cases:
             raise core.MachineryError(f'{cfg}: TLC emitted no cases')
         chk.sample(cases[len(cases) // 3])
-        _replay_cases(chk, cases, lambda c: replay_indent_case(c, mods), cfg,
+        _replay_cases(chk, cases, par_indent, cfg,
                       lambda c: core.json.dumps([c['cfg'], c['ls'], c['cfg2']]))
     res = chk.tlc('TextBlockMC', 'TextBlockMC.cfg')
     hist = [h for h in res.emitted() if any(op['op'] == 'indent' for op in h['hist'])]
-    _replay_cases(chk, hist, lambda c: replay_history(c, mods), 'history', lambda c: core.json.dumps(c['hist']))
+    _replay_cases(chk, hist, par_history, 'history', lambda c: core.json.dumps(c['hist']))
     chk.traces += len(hist)
     run_traces(chk, mods, seed + 18, 1000 if tier == 'quick' else 10000, ['block', 'functions'], f'i{seed}')
     chk.exhaustive = True
@@ -390,12 +429,12 @@ def check_c19_text(chk, tier, seed, mods):
         res = chk.tlc('TextCases', cfg)
         cases = res.emitted()
         chk.sample(cases[len(cases) // 2])
-        _replay_cases(chk, cases, lambda c: replay_value_case(c, mods, 'C19'), 'comment:' + cfg,
+        _replay_cases(chk, cases, par_value_c19, 'comment:' + cfg,
                       lambda c: core.json.dumps(c['v']))
     res = chk.tlc('TextBlockMC', 'CommentMC.cfg', coverage=True)
     hist = res.emitted()
     chk.sample(hist[len(hist) // 2])
-    _replay_cases(chk, hist, lambda c: replay_history(c, mods), 'comment-history',
+    _replay_cases(chk, hist, par_history, 'comment-history',
                   lambda c: core.json.dumps(c['hist']))
     chk.traces += len(hist)
     run_traces(chk, mods, seed + 19, 1000 if tier == 'quick' else 10000, ['comment'], f'c{seed}')
